@@ -233,4 +233,79 @@ theorem tlookup_putsEncoding (gl : GlyphList) (puts : List (Int × Option Name))
         · subst hc; simp [hn]
         · simp [hc]
 
+/-! ### ToUnicode -/
+
+theorem tuText_nil (code : Int) : tuText [] code = none := rfl
+
+theorem tuText_cons (d : Int × List UInt8) (defs : List (Int × List UInt8)) (code : Int) :
+    tuText (d :: defs) code =
+      match tuText defs code with
+      | some t => some t
+      | none => if d.1 == code then some (utf16beIgnore d.2) else none := by
+  unfold tuText
+  simp only [List.reverse_cons, List.find?_append]
+  cases h : defs.reverse.find? (fun a => a.1 == code) with
+  | some x => simp
+  | none =>
+    simp only [Option.none_or, List.find?_cons, List.find?_nil]
+    cases h2 : (d.1 == code) <;> simp
+
+/-- No code is defined both as a space and as a no-break space. -/
+def NoClash (defs : List (Int × List UInt8)) : Prop :=
+  ∀ d ∈ defs, ∀ e ∈ defs, utf16beIgnore d.2 = [0xA0] → e.1 = d.1 → utf16beIgnore e.2 ≠ [0x20]
+
+theorem noClash_of_nbspClash {defs : List (Int × List UInt8)} (h : nbspClash defs = false) : NoClash defs := by
+  intro d hd e he hA hcode hS
+  unfold nbspClash at h
+  have h1 := List.any_eq_false.mp h d hd
+  simp only [hA, beq_self_eq_true, Bool.true_and] at h1
+  have h1' : (defs.any fun e => e.fst == d.fst && utf16beIgnore e.snd == [32]) = false := by
+    cases hx : (defs.any fun e => e.fst == d.fst && utf16beIgnore e.snd == [32]) with
+    | false => rfl
+    | true => exact absurd hx h1
+  have h2 := List.any_eq_false.mp h1' e he
+  simp [hcode, hS] at h2
+
+theorem tlookup_foldl_addCid (defs : List (Int × List UInt8)) :
+    ∀ (m : Table) (code : Int),
+      (∀ d ∈ defs, utf16beIgnore d.2 = [0xA0] → tlookup m d.1 ≠ some [0x20]) → NoClash defs →
+      tlookup (defs.foldl (fun m d => addCid2Unichr m d.1 d.2) m) code =
+        match tuText defs code with
+        | some t => some t
+        | none => tlookup m code := by
+  induction defs with
+  | nil => intro m code _ _; simp [tuText_nil]
+  | cons d rest ih =>
+    intro m code hm hnc
+    have hstep : addCid2Unichr m d.1 d.2 = (d.1, utf16beIgnore d.2) :: m := by
+      unfold addCid2Unichr
+      by_cases hA : utf16beIgnore d.2 = [0xA0]
+      · have := hm d (List.mem_cons_self) hA
+        have h2 : (tlookup m d.1 == some [0x20]) = false := by simpa using this
+        simp [hA, h2]
+      · have h1 : (utf16beIgnore d.2 == [0xA0]) = false := by simpa using hA
+        simp [h1]
+    have hnc' : NoClash rest := fun a ha b hb => hnc a (List.mem_cons_of_mem _ ha) b (List.mem_cons_of_mem _ hb)
+    have hm' : ∀ d' ∈ rest, utf16beIgnore d'.2 = [0xA0] →
+        tlookup ((d.1, utf16beIgnore d.2) :: m) d'.1 ≠ some [0x20] := by
+      intro d' hd' hA
+      rw [tlookup_cons]
+      by_cases hk : d.1 = d'.1
+      · simp only [hk, beq_self_eq_true, if_true]
+        intro hS
+        have hS' : utf16beIgnore d.2 = [0x20] := by simpa using hS
+        exact hnc d' (List.mem_cons_of_mem _ hd') d (List.mem_cons_self) hA hk hS'
+      · have : (d.1 == d'.1) = false := by simpa using hk
+        simp only [this, Bool.false_eq_true, if_false]
+        exact hm d' (List.mem_cons_of_mem _ hd') hA
+    simp only [List.foldl_cons, hstep, ih _ code hm' hnc', tuText_cons, tlookup_cons]
+    cases tuText rest code <;> cases (d.1 == code) <;> simp
+
+/-- Without a space / no-break-space clash the ToUnicode dict holds the last definition of each code. -/
+theorem tlookup_buildUmap (es : List TuEntry) (code : Int) (h : nbspClash (tuDefs es) = false) :
+    tlookup (buildUmap es) code = tuText (tuDefs es) code := by
+  unfold buildUmap
+  rw [tlookup_foldl_addCid (tuDefs es) [] code (by intro d _ _; simp [tlookup_nil]) (noClash_of_nbspClash h)]
+  cases tuText (tuDefs es) code <;> simp [tlookup_nil]
+
 end PdfVerif.SimpleFont
